@@ -492,8 +492,8 @@ func TestSweep(t *testing.T) {
 			if sh.full && kind != "long" {
 				grid = full
 			}
-			if kind == "empty" {
-				grid = reduced
+			if kind == "empty" || kind == "mixed-empty" || kind == "marker-swapped" {
+				grid = reduced // the full width x precision grid runs with four secret kinds per shape
 			}
 			idx++
 			if idx%shards != shard {
